@@ -577,12 +577,15 @@ func swapOutRecs(ae1, ae2 *Active) {
 }
 
 func setOwner(outrec, newOwner *OutRec) {
+	var vt verifTicker
 	for newOwner.owner != nil && newOwner.owner.pts == nil {
+		vt.tick("setOwner")
 		newOwner.owner = newOwner.owner.owner
 	}
 
 	tmp := newOwner
 	for tmp != nil && tmp != outrec {
+		vt.tick("setOwner")
 		tmp = tmp.owner
 	}
 	if tmp != nil {
@@ -595,7 +598,9 @@ func areaOP(op *OutPt) float64 {
 	// https://en.wikipedia.org/wiki/Shoelace_formula
 	var area float64 = 0.0
 	op2 := op
+	var vt verifTicker
 	for {
+		vt.tick("areaOP")
 		area += float64(op2.prev.pt.Y+op2.pt.Y) * float64(op2.prev.pt.X-op2.pt.X)
 		op2 = op2.next
 
@@ -615,14 +620,18 @@ func areaTriangle(pt1, pt2, pt3 Point64) float64 {
 }
 
 func getRealOutRec(outRec *OutRec) *OutRec {
+	var vt verifTicker
 	for outRec != nil && outRec.pts == nil {
+		vt.tick("getRealOutRec")
 		outRec = outRec.owner
 	}
 	return outRec
 }
 
 func isValidOwner(outRec, testOwner *OutRec) bool {
+	var vt verifTicker
 	for (testOwner != nil) && (testOwner != outRec) {
+		vt.tick("isValidOwner")
 		testOwner = testOwner.owner
 	}
 	return testOwner == nil
@@ -631,7 +640,9 @@ func isValidOwner(outRec, testOwner *OutRec) bool {
 func path1InsidePath2(op1 *OutPt, op2 *OutPt) bool {
 	pip := IsOn
 	op := op1
+	var vt verifTicker
 	for {
+		vt.tick("path1InsidePath2")
 		switch pointInOpPolygon(op.pt, op2) {
 		case IsOutside:
 			if pip == IsOutside {
@@ -685,7 +696,9 @@ func getCleanPath(op *OutPt) Path64 {
 	res = append(res, op2.pt)
 	prevOp := op2
 	op2 = op2.next
+	var vt verifTicker
 	for op2 != op {
+		vt.tick("getCleanPath")
 		if !((op2.pt.X == op2.next.pt.X && op2.pt.X == prevOp.pt.X) ||
 			(op2.pt.Y == op2.next.pt.Y && op2.pt.Y == prevOp.pt.Y)) {
 			res = append(res, op2.pt)
@@ -967,7 +980,9 @@ func fixOutRecPts(outrec *OutRec) {
 	}
 	op := outrec.pts
 	start := op
+	var vt verifTicker
 	for {
+		vt.tick("fixOutRecPts")
 		op.outrec = outrec
 		op = op.next
 		if op == start {
